@@ -12,6 +12,7 @@ import (
 	"strings"
 
 	metav1 "k8s.io/apimachinery/pkg/apis/meta/v1"
+	"k8s.io/apimachinery/pkg/types"
 	"k8s.io/client-go/tools/cache"
 	"k8s.io/component-base/featuregate"
 
@@ -31,6 +32,10 @@ type Box struct {
 	Controller *controllers.UpstreamClusterController
 	Indexer    cache.Indexer
 	names      map[string]bool
+	// uids: metadata.uid per stored name, assigned the way an API server does it: an object keeps its uid across
+	// updates, an object created again after a deletion gets a new one
+	uids    map[string]string
+	nextUID int
 }
 
 // New builds a fresh controller (no goroutines are started).
@@ -38,11 +43,18 @@ func New() *Box {
 	f := gwinformers.NewSharedInformerFactory(gwfake.NewSimpleClientset(), 0)
 	inf := f.Proxy().V1alpha1().UpstreamClusters()
 	c := controllers.NewUpstreamClusterController(inf, &proxyoptions.RateLimiterOptions{})
-	return &Box{Controller: c, Indexer: inf.Informer().GetIndexer(), names: map[string]bool{}}
+	return &Box{Controller: c, Indexer: inf.Informer().GetIndexer(), names: map[string]bool{}, uids: map[string]string{}}
 }
 
 // Store writes the object into the lister's store without delivering an event.
 func (b *Box) Store(obj *proxyv1alpha1.UpstreamCluster) {
+	if obj.UID == "" {
+		if b.uids[obj.Name] == "" {
+			b.nextUID++
+			b.uids[obj.Name] = fmt.Sprintf("uid-%d", b.nextUID)
+		}
+		obj.UID = types.UID(b.uids[obj.Name])
+	}
 	if err := b.Indexer.Update(obj); err != nil {
 		panic(err)
 	}
@@ -50,7 +62,10 @@ func (b *Box) Store(obj *proxyv1alpha1.UpstreamCluster) {
 }
 
 // Remove removes the object from the lister's store without delivering an event.
-func (b *Box) Remove(obj *proxyv1alpha1.UpstreamCluster) { _ = b.Indexer.Delete(obj) }
+func (b *Box) Remove(obj *proxyv1alpha1.UpstreamCluster) {
+	_ = b.Indexer.Delete(obj)
+	delete(b.uids, obj.Name)
+}
 
 // Deliver hands an event object to the controller's sync handler.
 func (b *Box) Deliver(obj *proxyv1alpha1.UpstreamCluster) (syncqueue.Result, error) {
